@@ -352,6 +352,11 @@ func evalCursor(cs Case) (*core.Fail, bool) {
 	if o.err != nil {
 		return core.Failf("cursor:spurious-error", "%s: %v", desc, o.err), false
 	}
+	// outputs are gated at the resolved start block (or at the hand-off when it lies above), whatever start block the
+	// request still carries next to its cursor
+	if wantGate := max(o.handoff, o.start); o.gate != wantGate {
+		return core.Failf("cursor:gate", "%s: resolved start %d, hand-off %d: outputs must be gated at %d, the gate is %d", desc, o.start, o.handoff, wantGate, o.gate), true
+	}
 	if cs.Resolver == 2 { // forked: undo signal for the junction, restart right after it
 		j := cs.Block - 2
 		if o.undo == nil {
